@@ -118,6 +118,14 @@ def handle (j : Json) : R Json := do
         | .mm 0 _ => []
         | .mm 1 _ | .latest => spec cs q.1 (clampV reg.maxVersion.minor q.2)
         | .mm _ _ => spec cs q.1 reg.maxVersion.minor))).toArray)]
+  | "apiHelpers" =>
+    -- the exported helpers of package api on which the registry, the dry-run skip and warn defaulting rest
+    let a ← ver (← fld j "a")
+    let b ← ver (← fld j "b")
+    let la ← level (← fld j "la")
+    let lb ← level (← fld j "lb")
+    return Json.mkObj [("older", Json.bool (a.older b)), ("compare", Json.str (if compareLevels la lb < 0 then "lt" else if compareLevels la lb = 0 then "eq" else "gt")),
+      ("fullyPrivileged", Json.bool (Policy.fullyPrivileged ⟨⟨la, a⟩, ⟨lb, b⟩, ⟨la, b⟩⟩))]
   | "review" =>
     -- a JSON-object review body as a list of top-level members [key, type, string?]
     let doc ← arrOf (fun m => do
